@@ -127,6 +127,8 @@ func c09Run(c *fw.Ctx) {
 	good := "https://app.sso.test/oauth2/callback"
 	active, inactive := ans(200, `{"active":true}`), ans(200, `{"active":false}`)
 	refreshOK := ans(200, `{"access_token":"refreshed-access-token","expires_in":1800}`)
+	// an identity provider that rotates refresh tokens: the answer carries a new one
+	refreshRotating := ans(200, `{"access_token":"refreshed-access-token","refresh_token":"rotated-refresh-token","expires_in":1800,"token_type":"Bearer","scope":"openid email offline_access","id_token":"x.y.z"}`)
 	revoked := ans(400, `{"error":"invalid_grant","error_description":"The refresh token is invalid or expired."}`)
 
 	// ---- 1. sign_in with every cookie ---------------------------------------------------------
@@ -167,7 +169,7 @@ func c09Run(c *fw.Ctx) {
 			desc = "sealed-under-another-key"
 		}
 		idpScript{x: x, introspect: []harness.AuthAnswer{active, inactive, ans(500, "boom"), ans(200, "malformed{")},
-			refresh: []harness.AuthAnswer{refreshOK, revoked, ans(500, "boom"), ans(200, "malformed{")}}.install(e)
+			refresh: []harness.AuthAnswer{refreshOK, revoked, ans(500, "boom"), ans(200, "malformed{"), refreshRotating}}.install(e)
 		resp := e.Do(harness.NewRequest("GET", signedSignIn(e, good, now), harness.AuthHost, hdr, nil))
 		if !owned {
 			return
@@ -457,7 +459,7 @@ func c09Run(c *fw.Ctx) {
 			t += g
 			setNow(t)
 			nowT := harness.T0.Add(time.Duration(t) * time.Second)
-			idpScript{x: x, introspect: []harness.AuthAnswer{active, inactive}, refresh: []harness.AuthAnswer{refreshOK, revoked, ans(503, "unavailable")}}.install(e)
+			idpScript{x: x, introspect: []harness.AuthAnswer{active, inactive}, refresh: []harness.AuthAnswer{refreshOK, revoked, ans(503, "unavailable"), refreshRotating}}.install(e)
 			resp := e.Do(harness.NewRequest("GET", signedSignIn(e, good, nowT), harness.AuthHost, http.Header{"Cookie": {e.CookieName + "=" + raw}}, nil))
 			codes := codesIn(e, resp)
 			accepted, _ := idpAccepted(resp.Calls)
@@ -496,10 +498,10 @@ func init() {
 	fw.Register(&fw.Check{
 		ID:    "C09",
 		Level: "exploration",
-		Rule: "(sign_in) correctly signed sign-in requests with authenticator cookie {absent, garbage, sealed under another key, genuine x lifetime {future, past} x token deadline {future, past} x refresh token {yes, no} x email {in domain, other domain, look-alike domain}} and the IdP's answers chosen on demand: introspect {active, inactive, 500, malformed}, refresh {200, 400 revoked, 500, malformed}; " +
+		Rule: "(sign_in) correctly signed sign-in requests with authenticator cookie {absent, garbage, sealed under another key, genuine x lifetime {future, past} x token deadline {future, past} x refresh token {yes, no} x email {in domain, other domain, look-alike domain}} and the IdP's answers chosen on demand: introspect {active, inactive, 500, malformed}, refresh {200, 400 revoked, 500, malformed, 200 with a rotated refresh token}; " +
 			"(provider-acceptance) GoogleProvider, OktaProvider and AmazonCognitoProvider at their own API (URLs pointed at the scripted IdP): ValidateSessionState and RefreshSessionIfNeeded x status {200, 201, 204, 400, 401, 403, 404, 429, 500, 503} x body {affirmative, negative, empty, malformed} x connection reset; accepted => the answer was a 200 (and not Okta's {active:false}), and the lifetime deadline never moves; " +
 			"(sign_in-cognito) a valid Cognito-flavoured session (token deadline future/past) x userinfo answers {200, 401, 403, 404, 400, 429, 500, malformed} x refresh answers {200, 401, 403, 400, 500}; (callback) state {nonce_A / nonce_B with in-domain return, nonce_A with out-of-domain return, no colon, not base64, absent, empty nonce} x CSRF cookie {nonce_A, nonce_B, absent, odd} x code redemption {ok, rejected} x userinfo {verified in-domain, verified out-of-domain, unverified}; " +
-			"(history) a real login followed by 4 (thorough 6) signed sign-ins separated by gaps {below token expiry, beyond it, far beyond it, beyond the lifetime} with introspect {active, inactive} and refresh {ok, revoked, 503} on demand, the real cookies carried along. " +
+			"(history) a real login followed by 4 (thorough 6) signed sign-ins separated by gaps {below token expiry, beyond it, far beyond it, beyond the lifetime} with introspect {active, inactive} and refresh {ok, revoked, 503, ok with a rotated refresh token} on demand, the real cookies carried along. " +
 			"Oracle: a string that opens under the authenticator's code cipher appears in a response (every base64url-looking token of every header and the body is tried) only in a redirect to the signed URI, only for an authentic cookie within its lifetime whose token the IdP accepted in this step (after a refresh if due) and whose email passes the rule, and carries that user's email; the callback creates a session only when the state nonce equals the CSRF cookie, the code redeemed for a verified in-rule email and the return address is in domain; the lifetime deadline of re-issued cookies never changes; " +
 			"distinct_nontrivial = distinct (cookie, IdP calls, status, codes) / (state, cookie, calls, status, session) / history signatures",
 		Assumptions:    []string{"virtual clock through the overlay's time rewrite", "Okta provider flavour"},
